@@ -16,7 +16,13 @@ fn recv_dur(a: &Value) -> TemporalResult<Duration> { if nz(a) { arg_duration_nz(
 pub fn exec(op: &str, a: &Value) -> Option<Value> {
     let rel = |a: &Value| arg_relative(a.get("rel").unwrap_or(&Value::Null));
     Some(match op {
-        "Duration.new" => run(|| if nz(a) { arg_duration_nz(&a["dur"]) } else { arg_duration(&a["dur"]) }, p_duration),
+        "Duration.new" => run(|| if let Some(h) = js::opt_s(a, "half") {
+                // one field with half a unit added (the double nearest to it: for large fields that is the integer itself - skipped as not constructible)
+                let v = &a["dur"]; let f = |k: &str| { let x = v.get(k).map(ff).unwrap_or(temporal_rs::primitive::FiniteF64::from(0i8)).as_inner(); if k == h { x + 0.5 } else { x } };
+                if f(h).fract() == 0.0 { return Err(TemporalError::range().with_message("HARNESS: half not representable")); }
+                let g = |k: &str| temporal_rs::primitive::FiniteF64::try_from(f(k)).expect("finite");
+                Duration::new(g("y"), g("mo"), g("w"), g("d"), g("h"), g("mi"), g("s"), g("ms"), g("us"), g("ns"))
+            } else if nz(a) { arg_duration_nz(&a["dur"]) } else { arg_duration(&a["dur"]) }, p_duration),
         // a property bag: only the keys present are supplied ({} or [] = empty bag)
         "Duration.fromPartial" => run(|| { let p = &a["p"]; let g = |k: &str| p.get(k).map(ff);
             Duration::from_partial_duration(temporal_rs::partial::PartialDuration { years: g("y"), months: g("mo"), weeks: g("w"), days: g("d"), hours: g("h"), minutes: g("mi"),
